@@ -391,13 +391,14 @@ theorem eval_means_what_the_source_says (toks : List Compile.Tok) (s : Sess) (f 
           (dmapOf st)[mv.ctx.ip]? = some tok ∧
           s.buildSource (n + k) .eval toks = .failed e { s with m := mv, dmap := dmapOf st, lastTok := toks.length }
       | _ => True := by
-  -- the machine `eval` runs the program on: the session's machine under the context `eval` opens
-  have hwf0 : WF (s.contextOpen .eval).m := by
+  -- the machine `eval` runs the program on: the session's machine under the context `eval` opens (with what the build
+  -- logged forgotten: `forgetBuildLog` touches the reverse log only)
+  have hwf0 : WF (forgetBuildLog s.m (s.contextOpen .eval).m) := by
     refine ⟨?_, Nat.le_refl _, Nat.le_refl _, Nat.le_refl _⟩
-    simp only [Sess.contextOpen, hmode, if_true]
+    simp only [forgetBuildLog, Sess.contextOpen, hmode, if_true]
     exact hwf.ds
-  have hip0 : (s.contextOpen .eval).m.ctx.ip = 0 := by simp [Sess.contextOpen, hcode]
-  obtain ⟨sc, hc, hd, hrest⟩ := source_means_what_it_says nativeProg toks (s.contextOpen .eval).m f st ps' hip0 hwf0
+  have hip0 : (forgetBuildLog s.m (s.contextOpen .eval).m).ctx.ip = 0 := by simp [forgetBuildLog, Sess.contextOpen, hcode]
+  obtain ⟨sc, hc, hd, hrest⟩ := source_means_what_it_says nativeProg toks (forgetBuildLog s.m (s.contextOpen .eval).m) f st ps' hip0 hwf0
     hlim hp hsize
   obtain ⟨sc2, hc2, hcode2, _, _, _, hfl2⟩ := flow_compiler_emits_compileS toks _ ps' st
     { dict := s.m.dict, heapLen := s.m.heap.length } hp ⟨rfl, rfl, rfl, rfl⟩ rfl rfl rfl rfl
@@ -405,18 +406,17 @@ theorem eval_means_what_the_source_says (toks : List Compile.Tok) (s : Sess) (f 
     have : Compile.CRes.ok sc2 = Compile.CRes.ok sc := hc2.symm.trans hc
     cases this; rfl
   subst hsc
-  have hb := build1_fresh 0 .eval (by decide) toks s sc2 hcode hdmap hflows hhl hc hfl2
   have hbk : ∀ fuel, (s.contextOpen .eval).build1 fuel toks =
       .ok { ((s.contextOpen .eval).fromC sc2) with lastTok := toks.length } :=
     fun fuel => build1_fresh fuel .eval (by decide) toks s sc2 hcode hdmap hflows hhl hc hfl2
-  refine ⟨((s.contextOpen .eval).fromC sc2).m, rfl, by simpa [Sess.fromC] using hcode2, ?_⟩
-  have hm1 : ((s.contextOpen .eval).fromC sc2).m = { (s.contextOpen .eval).m with code := sc2.code, dict := sc2.dict, heap := (s.contextOpen .eval).m.heap ++ List.replicate (sc2.heapLen - (s.contextOpen .eval).m.heap.length) Cell.nil } := rfl
+  refine ⟨forgetBuildLog s.m ((s.contextOpen .eval).fromC sc2).m, rfl, by simpa [Sess.fromC, forgetBuildLog] using hcode2, ?_⟩
+  have hm1 : forgetBuildLog s.m ((s.contextOpen .eval).fromC sc2).m = { forgetBuildLog s.m (s.contextOpen .eval).m with code := sc2.code, dict := sc2.dict, heap := (forgetBuildLog s.m (s.contextOpen .eval).m).heap ++ List.replicate (sc2.heapLen - (forgetBuildLog s.m (s.contextOpen .eval).m).heap.length) Cell.nil } := rfl
   simp only at hrest
   rw [← hm1] at hrest
-  have hl1 : ((s.contextOpen .eval).fromC sc2).m.insnLimit = none := hlim
+  have hl1 : (forgetBuildLog s.m ((s.contextOpen .eval).fromC sc2).m).insnLimit = none := hlim
   -- what `build_from_source` does once the tokens are read
   have hbs : ∀ fuel, s.buildSource fuel .eval toks =
-      match ({ ((s.contextOpen .eval).fromC sc2) with lastTok := toks.length, nested := s.nested } : Sess).runS fuel with
+      match ({ ((s.contextOpen .eval).fromC sc2) with m := forgetBuildLog s.m ((s.contextOpen .eval).fromC sc2).m, lastTok := toks.length, nested := s.nested } : Sess).runS fuel with
       | .ok s3 => .done { s3 with m := { s3.m with ctx := { s.m.ctx with ip := s3.m.ctx.ip } } }
       | .err e s3 => .failed e s3
       | .panic p s3 => .panic p s3
@@ -428,12 +428,12 @@ theorem eval_means_what_the_source_says (toks : List Compile.Tok) (s : Sess) (f 
     have hcu : ((s.contextOpen .eval).fromC sc2).constUndo = s.constUndo := rfl
     simp only [hcu, Nat.sub_self, List.drop_zero]
     have hn : ((s.contextOpen .eval).fromC sc2).nested = s.m.ctx :: s.nested := rfl
-    have hmd : ((s.contextOpen .eval).fromC sc2).m.ctx.mode = .eval := rfl
+    have hmd : (forgetBuildLog s.m ((s.contextOpen .eval).fromC sc2).m).ctx.mode = .eval := rfl
     simp only [Sess.contextClose, hn, hmd, hmode, if_true]
     cases Sess.runS fuel _ <;> rfl
-  have hwf1 : WF ((s.contextOpen .eval).fromC sc2).m := ⟨hwf0.ds, hwf0.rs, hwf0.ls, hwf0.ss⟩
-  have hcl0 : ((s.contextOpen .eval).fromC sc2).m.code.length = (codeOf st).length := by
-    have : ((s.contextOpen .eval).fromC sc2).m.code = codeOf st := by simpa [Sess.fromC] using hcode2
+  have hwf1 : WF (forgetBuildLog s.m ((s.contextOpen .eval).fromC sc2).m) := ⟨hwf0.ds, hwf0.rs, hwf0.ls, hwf0.ss⟩
+  have hcl0 : (forgetBuildLog s.m ((s.contextOpen .eval).fromC sc2).m).code.length = (codeOf st).length := by
+    have : (forgetBuildLog s.m ((s.contextOpen .eval).fromC sc2).m).code = codeOf st := by simpa [Sess.fromC, forgetBuildLog] using hcode2
     rw [this]
   have hfl0 : ((s.contextOpen .eval).fromC sc2).flows = s.flows := by
     simp [Sess.fromC, Sess.hidden, Sess.visLen, Sess.contextOpen, hflows, hfl2]
@@ -482,7 +482,7 @@ theorem eval_means_what_the_source_says (toks : List Compile.Tok) (s : Sess) (f 
       have := failing_step_keeps_ip nativeProg mv hwv (by rw [h2]; intro h; cases h)
       rw [h2] at this; exact this
     refine ⟨n + 1, fun k => ⟨mv', h3, by rw [hipv]; exact h4, ?_⟩⟩
-    have hrun' : Mach.run nativeProg (n + 1 + k) ((s.contextOpen .eval).fromC sc2).m = some (.err e, mv') := by
+    have hrun' : Mach.run nativeProg (n + 1 + k) (forgetBuildLog s.m ((s.contextOpen .eval).fromC sc2).m) = some (.err e, mv') := by
       have := C15.run_eq_steps_err nativeProg n k _ mv (.err e, mv') h1
         (fun j mj hj hmj => by
           rcases Nat.lt_or_eq_of_le hj with hlt | heq'
